@@ -209,18 +209,21 @@ fn arg_repr(a: &Arg<'_>) -> Vec<u8> {
 }
 
 /// The fixed application handler (mirrors `handler` in coq/Model/Handler.v)
-pub fn raw_handler<W: embedded_io::Write<Error = E>, E: embedded_io::Error>(
+/// `reject`: the processor is a hand-written CommandProcessor that may return Err(ParseError) AFTER writing (action `x` of `do`);
+/// without it (RawCommand::processor, whose closure can only return sink errors) `x` just ends the action list
+pub fn raw_handler<'a, W: embedded_io::Write<Error = E>, E: embedded_io::Error>(
     cli: &mut CliHandle<'_, W, E>,
-    raw: RawCommand<'_>,
+    raw: RawCommand<'a>,
     log: &Rc<RefCell<Vec<String>>>,
     mkerr: fn() -> E,
-) -> Result<(), E> {
+    reject: bool,
+) -> Result<(), embedded_cli::service::ProcessError<'a, E>> {
     log.borrow_mut().push(format!(
         "{}({})",
         hex(raw.name().as_bytes()),
         crate::engines::args_str(&raw.args())
     ));
-    let vals: Vec<&str> = raw
+    let vals: Vec<&'a str> = raw
         .args()
         .args()
         .filter_map(|a| if let Arg::Value(v) = a { Some(v) } else { None })
@@ -278,6 +281,13 @@ pub fn raw_handler<W: embedded_io::Write<Error = E>, E: embedded_io::Error>(
         "quiet" => {}
         "do" => {
             for v in &vals {
+                if v.as_bytes().first() == Some(&b'x') {
+                    if reject {
+                        let value: &'a str = &v[1..];
+                        return Err(embedded_cli::service::ParseError::UnexpectedArgument { value }.into());
+                    }
+                    return Ok(());
+                }
                 do_action(cli, v, mkerr)?;
             }
         }
@@ -416,8 +426,23 @@ fn ses_raw(cap: usize, hcap: usize, pi: usize, ops: &str) -> String {
         .unwrap();
     let calls: Rc<RefCell<Vec<String>>> = Rc::new(RefCell::new(vec![]));
     let calls2 = calls.clone();
+    if hcap % 2 == 1 {
+        // a hand-written processor (the blanket CommandProcessor impl for closures): may reject the command after writing
+        fn mk<F>(f: F) -> F
+        where
+            F: for<'a> FnMut(&mut CliHandle<'_, Sink, SinkErr>, RawCommand<'a>) -> Result<(), embedded_cli::service::ProcessError<'a, SinkErr>>,
+        {
+            f
+        }
+        let mut processor = mk(move |cli, raw| raw_handler(cli, raw, &calls2, || SinkErr, true));
+        return run_session(&mut cli, &calls, ops, |cli, b| cli.process_byte::<RawCommand<'_>, _>(b, &mut processor));
+    }
     let mut processor = RawCommand::processor(move |cli: &mut CliHandle<'_, Sink, SinkErr>, raw: RawCommand<'_>| {
-        raw_handler(cli, raw, &calls2, || SinkErr)
+        match raw_handler(cli, raw, &calls2, || SinkErr, false) {
+            Ok(()) => Ok(()),
+            Err(embedded_cli::service::ProcessError::WriteError(e)) => Err(e),
+            Err(embedded_cli::service::ProcessError::ParseError(_)) => unreachable!(),
+        }
     });
     run_session(&mut cli, &calls, ops, |cli, b| cli.process_byte::<RawCommand<'_>, _>(b, &mut processor))
 }
